@@ -1,16 +1,18 @@
 import Driver.Solver
 /-
-Correspondence driver.  `lake env lean --run Main.lean < requests > replies`
+Correspondence driver.  `.lake/build/bin/fsicdrv < requests > replies`  (or `lake env lean --run Main.lean`)
 Each request line is `<kind>\t<json>`; each reply is one line (`!<message>` on a malformed request).
+Every model family registers its handlers in its own `Driver/<Family>.lean`; this file only concatenates them.
 -/
 open Lean
 
+def allHandlers : List (String × (Json → Except String String)) :=
+  Drv.Solver.handlers
+
 def dispatch (kind : String) (j : Json) : Except String String :=
-  match kind with
-  | "solve_t" => Drv.Solver.handleSolveT j
-  | "solve" => Drv.Solver.handleSolve j
-  | "solve_period" => Drv.Solver.handleSolvePeriod j
-  | _ => .error s!"unknown kind {kind}"
+  match allHandlers.lookup kind with
+  | some h => h j
+  | none => .error s!"unknown kind {kind}"
 
 def handleLine (line : String) : String :=
   match line.splitOn "\t" with
